@@ -5,22 +5,10 @@ import Vgw.Lemmas.Validate
 namespace Vgw.Lemmas.Validate
 open Vgw Vgw.Go.Strings Vgw.Model.Policy Vgw.Spec.Policy Vgw.Lemmas.Policy
 
-/-! ### the hypothesis of the partial theorem (decidable) -/
+/-! ### iteration orders -/
 
 /-- every iteration order is a rearrangement of the set -/
 def OrdOK (ord : List Bytes → List Bytes) : Prop := ∀ l a, a ∈ ord l ↔ a ∈ l
-
-/-- signature `validate:missing-field` excluded: Principal, Action and Resource are present -/
-def StmtNoMissing (r : RawStmt) : Prop :=
-  r.principal ≠ .missing ∧ r.action ≠ .missing ∧ r.resource ≠ .missing
-
-def DocHyp (P : RawStmt → Prop) : RawDoc → Prop
-  | .stmts l => ∀ r ∈ l, P r
-  | _ => True
-
-instance (r : RawStmt) : Decidable (StmtNoMissing r) := by unfold StmtNoMissing; infer_instance
-instance (P : RawStmt → Prop) [DecidablePred P] (d : RawDoc) : Decidable (DocHyp P d) := by
-  unfold DocHyp; split <;> infer_instance
 
 /-! ### unfolding the monadic definitions -/
 
@@ -48,19 +36,43 @@ theorem decodeStmt_ok_iff (r : RawStmt) (st : Stmt) :
 
 theorem validateStmt_ok_iff (bucket : Bytes) (acct : Bytes → Bool) (st : Stmt) :
     validateStmt bucket acct st = .ok () ↔
-      (effectValidate st.effect = .ok () ∧ principalsValidate acct st.principals = .ok () ∧
+      (effectValidate st.effect = .ok () ∧
+       (st.principals ≠ [] ∧ st.actions ≠ [] ∧ st.resources ≠ []) ∧
+       principalsValidate acct st.principals = .ok () ∧
        resourcesValidate bucket st.resources = .ok () ∧
        kindLoop (containsObjectPattern st.resources) (containsBucketPattern st.resources) st.actions = .ok ()) := by
   unfold validateStmt
   cases h1 : effectValidate st.effect with
   | error e => simp [bind, Except.bind]
   | ok u =>
-    cases h2 : principalsValidate acct st.principals with
-    | error e => simp [bind, Except.bind]
-    | ok u =>
-      cases h3 : resourcesValidate bucket st.resources with
-      | error e => simp [bind, Except.bind]
-      | ok u => simp [bind, Except.bind]
+    simp only [bind, Except.bind, List.length_eq_zero_iff]
+    by_cases hp : st.principals = []
+    · simp [hp]
+    · by_cases ha : st.actions = []
+      · simp [hp, ha]
+      · by_cases hr : st.resources = []
+        · simp [hp, ha, hr]
+        · rw [if_neg hp, if_neg ha, if_neg hr]
+          cases h2 : principalsValidate acct st.principals with
+          | error e => simp
+          | ok u =>
+            cases h3 : resourcesValidate bucket st.resources with
+            | error e => simp
+            | ok u => simp [hp, ha, hr]
+
+theorem ord_ne_nil (ord : List Bytes → List Bytes) (hord : OrdOK ord) (l : List Bytes) :
+    ord l ≠ [] ↔ l ≠ [] := by
+  constructor
+  · intro h e
+    apply h
+    rw [List.eq_nil_iff_forall_not_mem]
+    intro a ha
+    have := (hord l a).1 ha
+    rw [e] at this; cases this
+  · intro h e
+    obtain ⟨a, ha⟩ := List.exists_mem_of_ne_nil l h
+    have := (hord l a).2 ha
+    rw [e] at this; cases this
 
 theorem validatePolicy_cons (bucket : Bytes) (acct : Bytes → Bool) (st : Stmt) (rest : Policy) :
     validatePolicy bucket acct (st :: rest) = .ok () ↔
@@ -200,7 +212,15 @@ theorem stmt_accept (ord : List Bytes → List Bytes) (bucket : Bytes) (acct : B
       · rw [decodeField_of_members _ _ _ acts hma hne_a]; exact hka
       · rw [decodeField_of_members _ _ _ rs hmr hne_r]; exact hkr
     · rw [validateStmt_ok_iff]
-      refine ⟨(effect_ok_iff e).2 hee, ?_, ?_, ?_⟩
+      refine ⟨(effect_ok_iff e).2 hee, ⟨?_, ?_, ?_⟩, ?_, ?_, ?_⟩
+      · obtain ⟨x, hx⟩ := List.exists_mem_of_ne_nil ps (members_ne_nil _ _ hmp)
+        exact List.ne_nil_of_mem ((hkp_mem' x).2 hx)
+      · obtain ⟨a, ha⟩ := List.exists_mem_of_ne_nil acts (members_ne_nil _ _ hma)
+        have : a ∈ ka := (hka_mem a).2 ⟨a, ha, (addAction_ok_iff a a).2 ⟨hvalid a ha, rfl⟩⟩
+        exact (ord_ne_nil ord hord ka).2 (List.ne_nil_of_mem this)
+      · obtain ⟨x, hx⟩ := List.exists_mem_of_ne_nil rs (members_ne_nil _ _ hmr)
+        obtain ⟨p, hp, _⟩ := hpat x hx
+        exact List.ne_nil_of_mem ((hstored p).2 ⟨x, hx, hp⟩)
       · exact (principals_ok_iff acct kp ps hkp_mem' hkp_nd (members_ne_nil _ _ hmp)).2 hP
       · rw [resources_ok_iff]
         intro p hp
@@ -222,10 +242,11 @@ theorem stmt_refuse_inv (ord : List Bytes → List Bytes) (bucket : Bytes) (acct
     (hs : Sane bucket) (hord : OrdOK ord) (r : RawStmt) (st : Stmt)
     (hd : decodeStmt r = .ok st)
     (hv : validateStmt bucket acct { st with actions := ord st.actions } = .ok ())
-    (hmiss : StmtNoMissing r) : StmtWF .lenient bucket acct r := by
+ : StmtWF .lenient bucket acct r := by
   obtain ⟨hde, hdp, hda, hdr⟩ := (decodeStmt_ok_iff r st).1 hd
-  obtain ⟨hve, hvp, hvr, hvk⟩ := (validateStmt_ok_iff bucket acct _).1 hv
-  simp only at hve hvp hvr hvk
+  obtain ⟨hve, ⟨hnp, hna, hnr⟩, hvp, hvr, hvk⟩ := (validateStmt_ok_iff bucket acct _).1 hv
+  simp only at hve hvp hvr hvk hnp hna hnr
+  have hna' : st.actions ≠ [] := (ord_ne_nil ord hord st.actions).1 hna
   -- effect
   have heff : r.effect = .str allowLit ∨ r.effect = .str denyLit := by
     have hee := (effect_ok_iff _).1 hve
@@ -247,8 +268,8 @@ theorem stmt_refuse_inv (ord : List Bytes → List Bytes) (bucket : Bytes) (acct
   -- principals
   obtain ⟨ps, hmp, hap, _⟩ : ∃ l, members r.principal = some l ∧
       addAll (fun s => .ok s) l = .ok st.principals ∧ ∀ s, r.principal = .str s → s ≠ [] := by
-    rcases decodeField_ok _ _ _ _ hdp with ⟨h, _⟩ | h
-    · exact absurd h hmiss.1
+    rcases decodeField_ok _ _ _ _ hdp with h | h
+    · exact absurd h.2 hnp
     · exact h
   obtain ⟨_, hp_mem, hp_nd⟩ := addAll_ok _ ps _ hap
   have hp_mem' : ∀ k, k ∈ st.principals ↔ k ∈ ps := by
@@ -261,8 +282,8 @@ theorem stmt_refuse_inv (ord : List Bytes → List Bytes) (bucket : Bytes) (acct
   -- actions
   obtain ⟨acts, hma, haa, _⟩ : ∃ l, members r.action = some l ∧
       addAll addAction l = .ok st.actions ∧ ∀ s, r.action = .str s → s ≠ [] := by
-    rcases decodeField_ok _ _ _ _ hda with ⟨h, _⟩ | h
-    · exact absurd h hmiss.2.1
+    rcases decodeField_ok _ _ _ _ hda with h | h
+    · exact absurd h.2 hna'
     · exact h
   obtain ⟨ha_all, ha_mem, _⟩ := addAll_ok _ acts _ haa
   have hvalid : ∀ a ∈ acts, actionIsValid a = true := by
@@ -277,8 +298,8 @@ theorem stmt_refuse_inv (ord : List Bytes → List Bytes) (bucket : Bytes) (acct
   -- resources
   obtain ⟨rs, hmr, har, _⟩ : ∃ l, members r.resource = some l ∧
       addAll addResource l = .ok st.resources ∧ ∀ s, r.resource = .str s → s ≠ [] := by
-    rcases decodeField_ok _ _ _ _ hdr with ⟨h, _⟩ | h
-    · exact absurd h hmiss.2.2
+    rcases decodeField_ok _ _ _ _ hdr with h | h
+    · exact absurd h.2 hnr
     · exact h
   obtain ⟨hr_all, hr_mem, _⟩ := addAll_ok _ rs _ har
   have hstored : Stored rs st.resources := by
@@ -326,8 +347,7 @@ theorem stmts_accept (ord : List Bytes → List Bytes) (bucket : Bytes) (acct : 
 
 theorem stmts_refuse_inv (ord : List Bytes → List Bytes) (bucket : Bytes) (acct : Bytes → Bool)
     (hs : Sane bucket) (hord : OrdOK ord) (l : List RawStmt) (pol : Policy)
-    (hd : decodeStmts l = .ok pol) (hv : validatePolicy bucket acct (reorder ord pol) = .ok ())
-    (hyp : ∀ r ∈ l, StmtNoMissing r) :
+    (hd : decodeStmts l = .ok pol) (hv : validatePolicy bucket acct (reorder ord pol) = .ok ()) :
     (∀ r ∈ l, StmtWF .lenient bucket acct r) ∧ pol.length = l.length := by
   induction l generalizing pol with
   | nil =>
@@ -336,8 +356,8 @@ theorem stmts_refuse_inv (ord : List Bytes → List Bytes) (bucket : Bytes) (acc
   | cons r rest ih =>
     obtain ⟨st, sts, hd1, hd2, rfl⟩ := (decodeStmts_cons r rest pol).1 hd
     rw [reorder_cons, validatePolicy_cons] at hv
-    have hwf := stmt_refuse_inv ord bucket acct hs hord r st hd1 hv.1 (hyp r (by simp))
-    obtain ⟨hrest, hlen⟩ := ih sts hd2 hv.2 (fun x hx => hyp x (by simp [hx]))
+    have hwf := stmt_refuse_inv ord bucket acct hs hord r st hd1 hv.1
+    obtain ⟨hrest, hlen⟩ := ih sts hd2 hv.2
     refine ⟨?_, by simp [hlen]⟩
     intro x hx
     rcases List.mem_cons.1 hx with rfl | hx
@@ -380,11 +400,10 @@ theorem doc_accept (ord : List Bytes → List Bytes) (bucket : Bytes) (acct : By
       obtain ⟨pol, hd, hlen, hv⟩ := stmts_accept ord bucket acct hs hacct hord (x :: t) hall
       exact ⟨pol, hd, by rw [hlen]; simp, hv⟩
 
-/-- REFUSE direction (contrapositive): outside the excluded class (a statement lacking Principal,
-Action or Resource), whatever is accepted — in whatever map order — is (leniently) well-formed. -/
+/-- REFUSE direction (contrapositive): whatever is accepted — in whatever map order — is (leniently)
+well-formed. -/
 theorem doc_accepted_wellformed (ord : List Bytes → List Bytes) (bucket : Bytes)
     (acct : Bytes → Bool) (hs : Sane bucket) (hord : OrdOK ord) (doc : RawDoc)
-    (h1 : DocHyp StmtNoMissing doc)
     (hok : validateDocument ord bucket acct doc = .ok ()) : WellFormed .lenient bucket acct doc := by
   obtain ⟨pol, hd, hlen, hv⟩ := (validateDocument_ok_iff ord bucket acct doc).1 hok
   cases doc with
@@ -393,7 +412,6 @@ theorem doc_accepted_wellformed (ord : List Bytes → List Bytes) (bucket : Byte
   | stmts l =>
     have hd' : decodeStmts l = .ok pol := hd
     obtain ⟨hall, hl⟩ := stmts_refuse_inv ord bucket acct hs hord l pol hd' hv
-      (fun r hr => h1 r hr)
     cases l with
     | nil => exact absurd hl hlen
     | cons x t => exact hall
